@@ -316,7 +316,7 @@ func Check() *common.Check {
 		ID:    "C14",
 		Level: "exploration",
 		Rule: "(S) every struct type of pkg/sql/ast with a Children method (listed from the current source by tools/astreg) x every exported field that can hold a node, " +
-			"populated alone with uniquely tagged content to depth 2; (T) every tree of the sqlgen statement space (quick: without 3/4-operator shapes) " +
+			"populated alone with uniquely tagged content to depth 2; (S2) every interface-typed node position (field or slice element) x every concrete node type assignable to it; (T) every tree of the sqlgen statement space (quick: without 3/4-operator shapes) " +
 			"every .sql file under /repo/testdata the parser accepts, and left-deep operator / UNION chains of every length 2..40, around 64..1024 and a ladder up to 1200 operands. Oracle on each root: multiset of nodes seen by ast.Inspect == multiset of node-typed values reachable by reflection. " +
 			"distinct = distinct (type,field) obligations and distinct SQL texts; non-trivial = the root has at least 3 reachable nodes",
 		Assume: []string{"a node is identified by its type and canonical dump (Children() hands out copies of value-typed elements)",
@@ -342,6 +342,59 @@ func Check() *common.Check {
 						c.Outcome("structural")
 						c.NonTrivial()
 					})
+				}
+			}
+			// (S2) every interface-typed node position x every concrete node type that can be stored there: a traversal
+			// that narrows the dynamic type of a child (type switch, assertion to a sub-interface) loses the others
+			for _, proto := range NodeTypes {
+				st := reflect.TypeOf(proto).Elem()
+				for i := 0; i < st.NumField(); i++ {
+					i := i
+					f := st.Field(i)
+					if f.PkgPath != "" {
+						continue
+					}
+					it, isSlice := f.Type, false
+					if it.Kind() == reflect.Slice {
+						it, isSlice = it.Elem(), true
+					}
+					if it.Kind() != reflect.Interface || it.NumMethod() == 0 || !(it.Implements(nodeIface) || it == nodeIface) {
+						continue
+					}
+					for _, cand := range NodeTypes {
+						ct := reflect.TypeOf(cand)
+						if !ct.Implements(it) {
+							continue
+						}
+						key := "S2/" + st.Name() + "." + f.Name + "=" + ct.Elem().Name()
+						e.Do(key, func(c *common.Ctx) {
+							root := reflect.New(st)
+							// the child carries its own scalar content only (node-holding fields of one type are often mutually
+							// exclusive); a type without scalar fields gets its first node-holding field filled instead
+							child := reflect.New(ct.Elem())
+							child.Elem().Set(fill(ct.Elem(), 0))
+							if allZero(child) {
+								for k := 0; k < ct.Elem().NumField(); k++ {
+									if cf := ct.Elem().Field(k); cf.PkgPath == "" && canHoldNode(cf.Type, 0) {
+										child.Elem().Field(k).Set(fill(cf.Type, 1))
+										break
+									}
+								}
+							}
+							if isSlice {
+								sl := reflect.MakeSlice(f.Type, 1, 1)
+								sl.Index(0).Set(child)
+								root.Elem().Field(i).Set(sl)
+							} else {
+								root.Elem().Field(i).Set(child)
+							}
+							n := root.Interface().(ast.Node)
+							c.Input(key + " = " + common.Trim(sqlgen.Dump(n), 600))
+							compare(c, n)
+							c.Outcome("structural-dynamic-type")
+							c.NonTrivial()
+						})
+					}
 				}
 			}
 			// (T) trees of the statement space
